@@ -42,6 +42,17 @@ def src_str(xs):
     return ",".join(map(str, xs)) or "-"
 
 
+def gen_fanin_slow(rng, tier):
+    """fan-in junction with a slow consumer (the sink blocks until the sub-pipelines have finished) and more
+    elements than one demand window (224), so that the junction actor has to buffer across completion"""
+    kind = rng.choice(["ccb", "mgb", "zpb"])
+    k = rng.randint(1, 3)
+    srcs = [[i * 1000 + j for j in range(rng.choice([0, 3, 230, 300]))] for i in range(k)]
+    if kind == "ccb":
+        srcs[-1] = [(k - 1) * 1000 + j for j in range(rng.choice([230, 300, 400]))]
+    return f"{kind} " + "/".join(src_str(s) for s in srcs)
+
+
 def gen_fanin(rng, tier):
     kind = rng.choice(["mg", "mg", "cc", "zp"])
     k = rng.randint(1, 4)
@@ -94,7 +105,18 @@ def gen_ja(rng, tier):
             evs.append("k")
         else:
             evs.append(f"r{rng.randint(1, 9)}")
-    if rng.random() < 0.5:
+    if rng.random() < 0.6:
+        # finish every sub-source while elements may still be buffered (little or no demand so far), then let
+        # downstream drain: completion must wait for the buffer
+        for i in range(n):
+            if not done[i]:
+                for _ in range(rng.randint(0, 3)):
+                    val += 1
+                    evs.append(f"v{i}:{val}")
+                done[i] = True
+                evs.append(f"d{i}")
+        evs += [f"r{rng.randint(1, 3)}", "r50"]
+    elif rng.random() < 0.5:
         evs.append("r50")
     return f"ja {kind} {n} | {' '.join(evs)}"
 
@@ -165,6 +187,7 @@ def gen_cases(rng, tier):
     a, b, c = (60, 60, 360) if tier == "quick" else (1200, 1200, 6000)
     cases = ["mg -", "cc -/-", "zp 1,2,3/-", "bc 1 -", "bl 2 1,2,3", "pt 2 3 0,1,2,3,4,5"]
     cases += [gen_fanin(rng, tier) for _ in range(a)]
+    cases += [gen_fanin_slow(rng, tier) for _ in range(3 if tier == "quick" else 25)]
     cases += [gen_fanout(rng, tier) for _ in range(b)]
     for _ in range(c):
         cases.append(rng.choice([gen_ja, gen_jh, gen_jh, gen_js])(rng, tier))
@@ -185,7 +208,7 @@ def _sorted_branch(b):
 def compare(case, impl, model):
     if model == "*":
         return None
-    if case.startswith("mg "):
+    if case.startswith(("mg ", "mgb ")):
         # the interleaving is schedule dependent: same multiset here, order judged by the oracle
         return None if _sorted_branch(impl) == _sorted_branch(model) else f"impl={impl!r} model={model!r} (as multisets)"
     if case.startswith("bl "):
@@ -220,7 +243,7 @@ def oracle(case, impl, judge):
         return None if judge.startswith("ok") else judge
     # small python mirror for the deterministic junctions (judge unavailable)
     f = case.split()
-    if f[0] in ("ja", "jh", "js", "mg", "blb"):
+    if f[0] in ("ja", "jh", "js", "mg", "blb", "mgb", "ccb", "zpb"):
         return None
     branches = [(b + " ").partition(" | ") for b in impl.split(" ## ")]
     if any(hd.strip() != "done n=1" for hd, _, _ in branches):
